@@ -120,7 +120,7 @@ Definition r_statuses (s : rstate) : list (Z * Z) :=
 (* ---- PL ---- *)
 Definition p_at_gate (s : pstate) (t : nat) : bool :=
   match nth_error (pthreads s) t with
-  | Some th => match ppcof th with PIdle => true | _ => false end
+  | Some th => match ppcof th with PIdle | PCreating _ => true | _ => false end
   | None => true
   end.
 
@@ -129,7 +129,8 @@ Definition p_statuses (s : pstate) : list (Z * Z) :=
                  | None => (2, 0)%Z
                  | Some _ => match ppcof th with
                              | PIdle => (0%Z, Z.of_nat (popi th))
-                             | PWaiting => (1%Z, Z.of_nat (popi th))
+                             | PCreating _ => (3%Z, Z.of_nat (popi th))
+                             | _ => (1%Z, Z.of_nat (popi th))
                              end
                  end) (pthreads s).
 
@@ -269,7 +270,15 @@ Fixpoint pl_scan (n maxage : Z) (sc : list (list pop)) (l : list ev) (m : pmon) 
       else if (k =? 7)%Z then
         (true, mkPM (mheld m) (midle m) (mfresh m) (mdead m) (mseen m) (mlive m) (mclock m + x)%Z)
       else if (k =? 4)%Z then
-        ((mlive m =? n)%Z && match midle m with [] => true | _ => false end && match mfresh m with [] => true | _ => false end, m)
+        (* blocked: behind a create() in progress (the pool lock is held across it), or a Get
+           at the limit with nothing idle *)
+        (match mfresh m with
+         | _ :: _ => true
+         | [] => match nth_op sc (ea e) (eop e) with
+                 | Some PGet => (mlive m =? n)%Z && match midle m with [] => true | _ => false end
+                 | _ => false
+                 end
+         end, m)
       else if (k =? 3)%Z then
         match nth_op sc (ea e) (eop e) with
         | Some PGet =>
